@@ -81,6 +81,13 @@ Theorem C02_tainted_only_error_return :
 Proof. exact fret_ok_disabled. Qed.
 Print Assumptions C02_tainted_only_error_return.
 
+Theorem C02_tainted_error_return_enabled :
+  forall (g : graph) (c : cfg) (ext : bool) (fs : fstate),
+    tainted g fs = true -> returned (fb fs) = None ->
+    fstep g c ext fs (Ev (Ret false)) = Some (set_ret fs false).
+Proof. exact fret_err_enabled. Qed.
+Print Assumptions C02_tainted_error_return_enabled.
+
 (* Success of the extended system (also ExtendedCopyGraph's fan-out over several roots):
    everything reachable from every root of the call is in the destination. *)
 Theorem C02_success_complete :
@@ -105,6 +112,19 @@ Theorem C02_retry_completes :
     forall r n, is_call_root g c2 ext2 r -> reach g r n -> has g (dst (fb fs2)) n = true.
 Proof. exact fretry_completes. Qed.
 Print Assumptions C02_retry_completes.
+
+(* ... literally as the DESIGN states it: C01_closure applies to a fault-free rerun (a run of
+   the fault-free transition system Model/CopySpec.v of C01) started on the destination that
+   any run of the faulty first call left. *)
+Theorem C02_retry_completes_C01 :
+  forall (g : graph) (c1 c2 : cfg) (ext1 : bool) (d0 : list node)
+         (tr1 : list fevent) (fs1 : fstate) (tr2 : list event) (st2 : state),
+    ext_ok g c1 ext1 d0 -> closed_nodes g d0 -> mt_consistent g ->
+    faccepts g c1 ext1 d0 tr1 = Some fs1 ->
+    accepts g c2 (dst (fb fs1)) tr2 = Some st2 -> returned st2 = Some true ->
+    forall n, reach g (c_root c2) n -> has g (dst st2) n = true.
+Proof. exact fretry_completes_spec. Qed.
+Print Assumptions C02_retry_completes_C01.
 
 (* The hypotheses are satisfiable and the runs are not vacuous: a shared-successor DAG
    (R -> A, B; A -> C, D; B -> C) whose push of C fails AFTER the content was stored while D
